@@ -19,11 +19,8 @@ git stash pop -q
 mkdir -p /verif/seeded/$name
 cp _seed/patch.diff _seed/demo_test.go _seed/notes.md /verif/seeded/$name/ 2>/dev/null
 cd /verif
-if ! git -C /repo diff --quiet; then echo "/repo dirty, abort"; exit 2; fi
-git -C /repo apply /verif/seeded/$name/patch.diff || { echo "patch does not apply to /repo"; exit 2; }
+# the checks run against the worktree itself (VERIF_REPO): /repo is not touched
 for id in "$@"; do
   echo "== check $id against the change"
-  ./check.sh $id quick 2>&1 | grep -E "^VIOLATION|^property=|^  |machinery" | cut -c1-220 | head -12
+  VERIF_REPO=$wt ./check.sh $id quick 2>&1 | grep -E "^VIOLATION|^property=|^  |machinery" | cut -c1-220 | head -12
 done
-git -C /repo checkout -- .
-git -C /repo status --short | head -3
